@@ -371,6 +371,19 @@ def check_pair(d1, d2, ck):
                     continue
                 if py.dtype == numpy.dtype(d1):
                     ck.run(name, c, lambda: getattr(numpoly, uf)(pe, py, dtype=d2), want, want[(0,)].dtype, lab)
+    # the exponent's dtype takes part in the promotion like in numpy.power (arrays and numpy scalars)
+    if numpy.dtype(d2).kind in "iu" and d1 != "bool":
+        base = edge(d1)[::-1].copy()
+        pb = numpoly.polynomial_from_attributes([[1]], [base])
+        ex = numpy.array([0, 1, 2], dtype=d2)
+        if pb.dtype == numpy.dtype(d1):
+            with warnings.catch_warnings(), numpy.errstate(all="ignore"):
+                warnings.simplefilter("ignore")
+                full = numpy.power(base, ex)
+                want = {(k,): numpy.where(ex == k, full, 0).astype(full.dtype) for k in (0, 1, 2)}
+                ck.run("power(exponent-array-dtype)", c, lambda: pb ** ex, want, full.dtype, lab)
+                sc = numpy.power(base, ex[2])
+                ck.run("power(exponent-scalar-dtype)", c, lambda: pb ** ex[2], {(2,): sc}, sc.dtype, lab)
     if d1 == d2:
         a1 = data(d1, (3,), 1)
         p = numpoly.polynomial_from_attributes([[1]], [a1])
